@@ -24,8 +24,8 @@ from tools import vlib
 from tools.vlib import Outcome, sx
 
 MANIFEST = {
-    "level_text": "Coq theorems (Properties/C19.v, no axioms) about a Gallina transcription of save_to_tauri_config / from_tauri_config / validate (config.rs) and of the configuration phase of run_generate and run_init (bin): for every JSON document, every settings value (all twelve fields), every path into the document outside plugins.typegen, every set of files and every flag set: an accepted save preserves every other path (C19_preserve) and reads back as the settings written (C19_roundtrip); the save is refused with an error exactly when the root or plugins is not an object (C19_save_refused); init refuses invalid settings and unwritable documents without touching any file (C19_init_reject_first, C19_init_unsaveable) and otherwise leaves save_doc of the old document (C19_init_document); generate uses flag over file over default for all observable settings and refuses invalid effective settings without a write (C19_precedence, C19_generate_reject_first) for every set of files and flag set, without exception (no known-finding class is left). The model is tied to /repo on every run: library calls on random documents (compared as JSON values) and the real binary on all 2^5 flag subsets x configuration-file variants and on random init runs.",
-    "level_note": "JSON numbers are opaque tokens of serde_json's number model (u64/i64/f64): preservation of numbers is equality of those values, not of their spelling (1e3 comes back as 1000.0). Parsing and printing of JSON text (serde_json) is outside the model: the model starts from the value serde_json reads, the oracle from the reference reading of the text (a misread decimal is therefore reported). Analysis and generation are reduced to which project, which output directory, which mode. Not modelled: the explicit -c/--config standalone file (from_file), init targets not named tauri.conf.json, the build-script entry (build/mod.rs load_configuration: file over default only, no flags). Force is observed through an immediate identical second run (relies on the cache being stable for a one-command project). Of the boolean oracles only roundtrip_b is proved to accept the model's own output.",
+    "level_text": "Coq theorems (Properties/C19.v, no axioms) about a Gallina transcription of save_to_tauri_config / from_tauri_config / validate (config.rs) and of the configuration phase of run_generate and run_init (bin): for every JSON document, every settings value (all twelve fields), every path into the document outside plugins.typegen, every set of files and every flag set: an accepted save preserves every other path (C19_preserve) and reads back as the settings written (C19_roundtrip); the save is refused with an error exactly when the root or plugins is not an object (C19_save_refused); init refuses invalid settings and unwritable documents without touching any file (C19_init_reject_first, C19_init_unsaveable) and otherwise leaves save_doc of the old document (C19_init_document); generate uses flag over file over default for all observable settings and refuses invalid effective settings without a write (C19_precedence, C19_generate_reject_first) for every set of files and flag set. The standalone configuration file (save_to_file / from_file as serde derives them; generate -c) and the build-script loader are modelled next to it: exact round trip for all twelve fields (C19_roundtrip_file), flag over standalone file over default (C19_precedence_file, C19_generate_c), file over default in the build script (C19_precedence_build), on the complement of the classes C19-8 and C19-9, each with a computed counterexample. The model is tied to /repo on every run: library calls on random documents (compared as JSON values) and the real binary on all 2^5 flag subsets x configuration-file variants and on random init runs.",
+    "level_note": "JSON numbers are opaque tokens of serde_json's number model (u64/i64/f64): preservation of numbers is equality of those values, not of their spelling (1e3 comes back as 1000.0). Parsing and printing of JSON text (serde_json) is outside the model: the model starts from the value serde_json reads, the oracle from the reference reading of the text (a misread decimal is therefore reported). Analysis and generation are reduced to which project, which output directory, which mode. Not modelled: init targets not named tauri.conf.json; a standalone file whose root is a JSON array (serde reads it positionally); duplicate keys in a standalone file; the project detection of the build script (the driver runs it from the project root) and its verbosity (not observable). Force is observed through an immediate identical second run (relies on the cache being stable for a one-command project). Of the boolean oracles only roundtrip_b is proved to accept the model's own output.",
     "technique": "Rocq/Coq proof over hand-written model + correspondence check (extracted OCaml vs Rust harness and the real CLI binary in sandboxes)",
     "design_ref": "DESIGN.md section 5 C19, section 11 (preserve/save_writes/roundtrip/precedence spike)"
 }
@@ -36,7 +36,11 @@ RULE = ("lib: random JSON documents (depth <= 5; Unicode, escaped and surrogate-
         "generate: all 2^5 subsets of {-p,-o,-v,--verbose,--force} x 10 configuration file variants (absent, no section, "
         "empty section, each single setting, all settings in two polarities) plus random worlds (file location, "
         "invalid values, wrong types, missing default project, --visualize-deps). init: random documents x flag sets "
-        "incl. invalid library / missing project / missing or unparseable target. A case is non-trivial when the document "
+        "incl. invalid library / missing project / missing or unparseable target. "
+        "file: 600 settings values through save_to_file/from_file, 600 random standalone documents (right and wrong types, unknown keys) through from_file; "
+        "generate -c: all 2^5 flag subsets x 12 standalone-file variants (each setting absent / non-default / equal to its default, all), corpus incl. the seeded force case, random worlds (missing / malformed / invalid file, tauri.conf.json present as a decoy); "
+        "build script: BuildSystem::generate_at_build_time() through a driver, 8 fixed + 150 random combinations of tauri.conf.json and typegen.json, force observed through a marker that a non-forced second run must leave alone. "
+        "A case is non-trivial when the document "
         "has at least one key besides plugins (lib, init) or at least one flag or file setting (generate); "
         "distinct = distinct cases by content hash")
 TRUSTED = [
@@ -901,6 +905,317 @@ def random_init_case(rng):
     return {"world": w, "iflags": il}
 
 
+# ------------------------------------------------------------------ standalone file (library level)
+
+def eval_flat(cases, scratch):
+    """save_to_file + from_file on settings values."""
+    for c in cases:
+        c["scratch"] = scratch
+    obs = vlib.run_harness("c19-flat", cases, per_case_timeout=20)
+    sexps, keep = [], []
+    for c, o in zip(cases, obs):
+        if "panic" in o or o.get("skipped"):
+            keep.append(None)
+            continue
+        saved = py_parse(o["saved_text"]) if o.get("saved_text") is not None else None
+        ld = o["load"]
+        impl_loaded = ["some", cfg_sx(ld["cfg"])] if ld["kind"] == "some" else ["err"]
+        keep.append((saved, impl_loaded))
+        sexps.append(sx([cfg_sx(c["cfg"]), [] if saved is None else [to_sx(saved)], impl_loaded, bool(o["mkproj_done"])]))
+    res = iter(vlib.run_runner("c19-flat", sexps))
+    outs = []
+    for c, o, k in zip(cases, obs, keep):
+        case = {"cfg": c["cfg"], "mkproj": c["mkproj"]}
+        if o.get("skipped"):
+            continue
+        if k is None:
+            outs.append(Outcome(case, False, False, detail={"impl": "PANIC " + str(o.get("panic"))}))
+            continue
+        m = next(res)
+        if m and m[0] == "runner-error":
+            raise vlib.BuildError("runner: %s" % m)
+        saved, impl_loaded = k
+        flat, loaded, ok = from_sx(m[0]), m[1], m[2] == "true"
+        corr = saved == flat and ((impl_loaded[0] == "some" and loaded and vlib.sx_parse(sx(impl_loaded[1])) == loaded[0])
+                                  or (impl_loaded[0] == "err" and not loaded))
+        det = {"impl": {"saved": None if saved is None else plain(saved), "load": o["load"]},
+               "model": {"saved": plain(flat), "load": loaded}, "oracle_ok": ok}
+        if ok and corr:
+            det = {"load": o["load"]["kind"]}
+        outs.append(Outcome(case, corr, ok, None, det, True))
+    return outs
+
+
+# from_file deserialises the text straight into the struct: the value of an unknown key is skipped
+# without being checked (out-of-range number, lone surrogate), so such texts are not malformed for it
+BAD_FLAT = [t for t in BAD_TEXTS if not t.startswith('{"a":')] + ['{"a":1,}', '{"verbose":tru}', '{"force":01}']
+
+FLAT_KEYS = {
+    "project_path": ['"./projA"', '"./src-tauri"', '"./nope"', "null", "5"],
+    "output_path": ['"./outF"', '"./src/generated"', "null", "[]"],
+    "validation_library": ['"zod"', '"none"', '"yup"', "true"],
+    "verbose": ["true", "false", "null", '"yes"', "1"],
+    "visualize_deps": ["true", "false", "null"],
+    "include_private": ["true", "false", "null", "0"],
+    "type_mappings": ["null", "{}", '{"DateTime":"string"}', '{"A":1}', "[]"],
+    "exclude_patterns": ["null", "[]", '["target"]', "[1]", '"x"'],
+    "include_patterns": ["null", '["src"]'],
+    "default_parameter_case": ['"snake_case"', '"camelCase"', "null"],
+    "default_field_case": ['"camelCase"', "7"],
+    "force": ["true", "false", "null", '"no"'],
+    "unknownKey": ["1", "{}"], "projectPath": ['"./projB"'],
+}
+
+
+def gen_flat_text(rng, valid_only=False):
+    items = []
+    for k, vs in FLAT_KEYS.items():
+        if rng.random() < 0.35:
+            v = rng.choice(vs[:2] if valid_only else vs)
+            items.append((k, v))
+    rng.shuffle(items)
+    ws = make_ws(rng)
+    return "{" + ws() + ("," + ws()).join(esc_str(k, rng) + ws() + ":" + ws() + v for k, v in items) + ws() + "}"
+
+
+def eval_flatload(cases, scratch):
+    for c in cases:
+        c["scratch"] = scratch
+        c["dirs"] = ["projA", "src-tauri"]
+    obs = vlib.run_harness("c19-flat", cases, per_case_timeout=20)
+    reading = serde_read([c["text"] for c in cases])
+    outs, sexps, idx = [], [], []
+    for i, (c, o) in enumerate(zip(cases, obs)):
+        d = reading[c["text"]]
+        if d is None or d[0] == "a" or "panic" in o or o.get("skipped"):
+            continue
+        sexps.append(sx([to_sx(d), c["dirs"]]))
+        idx.append(i)
+    res = vlib.run_runner("c19-flatload", sexps)
+    for i, m in zip(idx, res):
+        c, o = cases[i], obs[i]
+        if m and m[0] == "runner-error":
+            raise vlib.BuildError("runner: %s" % m)
+        loaded = m[0]
+        ld = o["load"]
+        corr = (ld["kind"] == "some" and loaded and vlib.sx_parse(sx(cfg_sx(ld["cfg"]))) == loaded[0]) or (ld["kind"] == "err" and not loaded)
+        outs.append(Outcome({"text": c["text"]}, bool(corr), True, None,
+                            {"load": ld["kind"]} if corr else {"impl": ld, "model": loaded}, True))
+    return outs
+
+
+# ------------------------------------------------------------------ generate -c <standalone file>
+
+def run_generatec_case(c):
+    with vlib.Sandbox("c19c") as sb:
+        materialise(sb, c["world"])
+        before = sb.snapshot(".", strip_timestamp=False)
+        obs, raw, _ = observe_run(sb, flags_argv(c["flags"]) + ["-c", c["cfile"]], before)
+    return obs, raw
+
+
+def eval_generatec(cases):
+    res = vlib.pmap(run_generatec_case, cases)
+    reading = serde_read([t for c in cases for t in c["world"]["files"].values()])
+    sexps = []
+    for c, (obs, raw) in zip(cases, res):
+        o = obs if obs[0] != "odd" else ["rejected", False]
+        sexps.append(sx([world_fs(c["world"], reading), flags_sx(c["flags"]), c["cfile"], o]))
+    ms = vlib.run_runner("c19-generatec", sexps)
+    outs = []
+    for c, (obs, raw), m in zip(cases, res, ms):
+        case = {"world": c["world"], "flags": c["flags"], "cfile": c["cfile"]}
+        if m and m[0] == "runner-error":
+            raise vlib.BuildError("runner: %s" % m)
+        result, spec, ok, kfs = m[0], m[1], m[2] == "true", list(m[3])
+        kind, eff, unchanged = result[0], result[1], result[2] == "true"
+        if obs[0] == "odd":
+            corr, ok = False, False
+        elif obs[0] == "rejected":
+            corr = (kind.startswith("reject") or kind == "fail") and (unchanged == obs[1])
+        elif obs[0] == "nocommands":
+            corr = kind == "nocommands"
+        else:
+            corr = kind == "run" and eff and vlib.sx_parse(sx(obs[1])) == eff[0]
+        kf = "C19-8" if (not ok and "C19-8" in kfs and obs[0] == "rejected" and obs[1]) else None
+        det = {"impl": {"seen": obs, "raw": raw}, "model": result, "spec": spec, "classes": kfs}
+        if ok and corr:
+            det = {"seen": obs, "classes": kfs}
+        outs.append(Outcome(case, corr, ok, kf, det, True))
+    return outs
+
+
+def flat_text(settings):
+    return json.dumps(settings)
+
+
+NOFLAGS = {"project": None, "output": None, "lib": None, "verbose": False, "viz": False, "force": False}
+
+
+def exhaustive_generatec_cases():
+    """2^5 flag subsets x standalone-file variants: each setting absent / non-default / equal to its default."""
+    variants = [("empty", {}),
+                ("project", {"project_path": "./projA"}), ("project-default", {"project_path": "./src-tauri"}),
+                ("output", {"output_path": "./outF"}), ("output-default", {"output_path": "./src/generated"}),
+                ("lib", {"validation_library": "zod"}), ("lib-default", {"validation_library": "none"}),
+                ("verbose", {"verbose": True}), ("verbose-default", {"verbose": False}),
+                ("force", {"force": True}), ("force-default", {"force": False}),
+                ("all", {"project_path": "./projA", "output_path": "outF/deep", "validation_library": "zod",
+                         "verbose": True, "force": True, "visualize_deps": True, "include_private": None})]
+    cases = []
+    for vname, st in variants:
+        for mask in range(32):
+            flag_lib = "none" if st.get("validation_library") == "zod" else "zod"
+            fl = {"project": "./projB" if mask & 1 else None, "output": "./outC" if mask & 2 else None,
+                  "lib": flag_lib if mask & 4 else None, "verbose": bool(mask & 8), "viz": False, "force": bool(mask & 16)}
+            w = {"src_tauri": "proj", "files": {"typegen.json": flat_text(st)}}
+            cases.append({"world": w, "flags": fl, "cfile": "typegen.json", "name": "%s/%d" % (vname, mask)})
+    return cases
+
+
+GENC_CORPUS = [
+    ("seeded C19-4: force true only in the standalone file", {"force": True}, NOFLAGS, "proj"),
+    ("force false in the file, --force flag", {"force": False}, dict(NOFLAGS, force=True), "proj"),
+    ("C19-8 witness: file relies on the missing default project, -p gives the real one",
+     {"output_path": "./outF", "validation_library": "zod"}, dict(NOFLAGS, project="./projB"), "absent"),
+    ("C19-8: file library unsupported, flag supplies a valid one", {"validation_library": "yup", "output_path": "./outF"},
+     dict(NOFLAGS, lib="zod"), "proj"),
+    ("file library unsupported, no flag", {"validation_library": "yup"}, NOFLAGS, "proj"),
+    ("wrong type is an error", {"verbose": "yes"}, NOFLAGS, "proj"),
+    ("tauri.conf.json keys are not standalone keys", {"projectPath": "./projA", "outputPath": "./outF"}, NOFLAGS, "proj"),
+]
+
+
+def random_generatec_case(rng):
+    w = {"src_tauri": rng.choice(["proj", "proj", "proj", "proj", "dir", "absent"]), "files": {}}
+    cfile = rng.choice(["typegen.json", "typegen.json", "conf/my.json", "./cfg.json"])
+    r = rng.random()
+    if r < 0.8:
+        w["files"][cfile] = gen_flat_text(rng, valid_only=rng.random() < 0.7)
+    elif r < 0.9:
+        w["files"][cfile] = rng.choice(BAD_FLAT + ["5", "null", '"s"'])
+    # else: the file does not exist
+    if rng.random() < 0.2:
+        w["files"]["tauri.conf.json"] = sec_text({"outputPath": "./outT", "force": True})
+    fl = {"project": rng.choice([None, None, None, "./projB", "projB", "./nope2"]),
+          "output": rng.choice([None, None, "./outC"]),
+          "lib": rng.choice([None, None, None, "zod", "none", "foo"]),
+          "verbose": rng.random() < 0.3, "viz": rng.random() < 0.2, "force": rng.random() < 0.3}
+    return {"world": w, "flags": fl, "cfile": cfile}
+
+
+# ------------------------------------------------------------------ build-script loader
+
+MARKER = b"// C19 marker: must survive a run that is not forced\n"
+
+
+def buildrun(cwd):
+    import subprocess
+    try:
+        r = subprocess.run([vlib.harness_bin("c19"), "buildrun"], cwd=cwd, env=vlib.ENV, timeout=120,
+                           stdout=subprocess.PIPE, stderr=subprocess.STDOUT)
+    except subprocess.TimeoutExpired:
+        return "timeout", ""
+    out = r.stdout.decode("utf-8", "replace")
+    m = re.search(r"C19RESULT (\w+)(.*)", out)
+    return (m.group(1) if m else "crash(%s)" % r.returncode), out
+
+
+def run_build_case(c):
+    with vlib.Sandbox("c19b") as sb:
+        materialise(sb, c["world"])
+        before = sb.snapshot(".", strip_timestamp=False)
+        cwd = sb.path("w")
+        verdict, out = buildrun(cwd)
+        after = sb.snapshot(".", strip_timestamp=False)
+        raw = {"verdict": verdict, "output": out[-800:]}
+        if verdict != "ok":
+            return ["rejected", after == before], raw
+        new = [k for k in after if k.endswith("/commands.ts") and before.get(k) != after[k]]
+        if not new:
+            return ["nocommands"], raw
+        if len(new) != 1:
+            return ["odd", "%d commands.ts" % len(new)], raw
+        outdir = os.path.dirname(new[0])
+        body = after[new[0]].decode("utf-8", "replace")
+        m = re.search(r"Generator: (\S+)", body)
+        lib = m.group(1) if m else "?"
+        projs = [p for fn, p in CMD_PROJECT.items() if ("function %s(" % fn) in body]
+        proj = projs[0] if len(projs) == 1 else "?%s" % projs
+        viz = (outdir + "/dependency-graph.txt") in after
+        with open(sb.path(new[0]), "wb") as fh:
+            fh.write(MARKER)
+        v2, out2 = buildrun(cwd)
+        forced = open(sb.path(new[0]), "rb").read() != MARKER
+        raw["second"] = {"verdict": v2, "marker_survived": not forced}
+        rel = os.path.relpath(sb.path(outdir), cwd)
+        return ["ran", [proj, rel, lib, False, False, viz, forced]], raw
+
+
+def eval_build(cases):
+    res = vlib.pmap(run_build_case, cases)
+    reading = serde_read([t for c in cases for t in c["world"]["files"].values()])
+    sexps = []
+    for c, (obs, raw) in zip(cases, res):
+        o = obs if obs[0] != "odd" else ["rejected", False]
+        sexps.append(sx([world_fs(c["world"], reading), o]))
+    ms = vlib.run_runner("c19-build", sexps)
+    outs = []
+    for c, (obs, raw), m in zip(cases, res, ms):
+        case = {"world": c["world"]}
+        if m and m[0] == "runner-error":
+            raise vlib.BuildError("runner: %s" % m)
+        result, spec, invalid, ok, kfs = m[0], m[1], m[2] == "true", m[3] == "true", list(m[4])
+        kind, eff = result[0], result[1]
+        pick = lambda e: [e[0], e[1], e[2], e[5], e[6]]
+        if obs[0] == "odd":
+            corr, ok = False, False
+        elif obs[0] == "rejected":
+            corr = False                       # the model of the build script never refuses
+        elif obs[0] == "nocommands":
+            corr = kind == "nocommands"
+        else:
+            corr = kind == "run" and eff and pick(vlib.sx_parse(sx(obs[1]))) == pick(eff[0])
+        kf = "C19-9" if (not ok and "C19-9" in kfs) else None
+        det = {"impl": {"seen": obs, "raw": raw}, "model": result, "spec": {"effective": spec, "invalid": invalid}, "classes": kfs}
+        if ok and corr:
+            det = {"seen": obs, "classes": kfs}
+        outs.append(Outcome(case, corr, ok, kf, det, bool(c["world"]["files"])))
+    return outs
+
+
+def build_cases(rng, n):
+    cases = []
+    fixed = [
+        ("defaults", {}),
+        ("typegen.json force", {"typegen.json": flat_text({"force": True, "output_path": "./outF"})}),
+        ("typegen.json no force", {"typegen.json": flat_text({"force": False, "output_path": "./outF", "validation_library": "zod"})}),
+        ("section wins over typegen.json", {"tauri.conf.json": sec_text({"outputPath": "./outT", "validationLibrary": "zod"}),
+                                            "typegen.json": flat_text({"output_path": "./outF"})}),
+        ("tauri.conf.json without section", {"tauri.conf.json": '{"productName":"app"}',
+                                             "typegen.json": flat_text({"project_path": "./projA", "visualize_deps": True})}),
+        ("C19-9 witness: unsupported library in the section", {"tauri.conf.json": sec_text({"validationLibrary": "yup", "outputPath": "./outF"})}),
+        ("C19-9: malformed typegen.json", {"typegen.json": '{"verbose":"yes","output_path":"./outF"}'}),
+        ("section force", {"tauri.conf.json": sec_text({"force": True, "projectPath": "./projB"})}),
+    ]
+    for name, files in fixed:
+        cases.append({"world": {"src_tauri": "proj", "files": files}, "name": name})
+    for _ in range(n):
+        files = {}
+        if rng.random() < 0.6:
+            s = {}
+            for k, vs in (("projectPath", ["./projA", "./projB", "./nope", "./empty"]), ("outputPath", ["./outT", "outT/deep"]),
+                          ("validationLibrary", ["zod", "none", "zod", "yup"]), ("force", [True, False]),
+                          ("visualizeDeps", [True, False]), ("verbose", [True, False])):
+                if rng.random() < 0.4:
+                    s[k] = rng.choice(vs)
+            files["tauri.conf.json"] = sec_text(s) if rng.random() < 0.75 else rng.choice(['{"a":1}', '{"a":', '{"plugins":[]}'])
+        if rng.random() < 0.6:
+            files["typegen.json"] = gen_flat_text(rng, valid_only=rng.random() < 0.75) if rng.random() < 0.9 else rng.choice(BAD_FLAT)
+        cases.append({"world": {"src_tauri": rng.choice(["proj", "proj", "proj", "dir"]), "files": files}})
+    return cases
+
+
 # ------------------------------------------------------------------ entry points
 
 def build_all():
@@ -963,6 +1278,25 @@ def run(rep):
         "random_refused": sum(1 for o in gouts if (o.detail.get("seen") or o.detail.get("impl", {}).get("seen"))[0] == "rejected"),
     }
     lap("generate random done")
+    # standalone configuration file: library level, generate -c, build-script loader
+    with vlib.Sandbox("c19flat") as sb:
+        fcases = [{"id": i, "cfg": gen_cfg(rng), "mkproj": rng.random() < 0.9} for i in range(600 if quick else 8000)]
+        rep.add("file-roundtrip", eval_flat(fcases, sb.root))
+        lcases = [{"id": i, "text": gen_flat_text(rng)} for i in range(600 if quick else 8000)]
+        rep.add("file-read", eval_flatload(lcases, sb.root))
+    gcc = [{"world": {"src_tauri": st, "files": {"typegen.json": flat_text(d)}}, "flags": fl, "cfile": "typegen.json", "name": n}
+           for n, d, fl, st in GENC_CORPUS]
+    rep.add("generate-c-corpus", eval_generatec(gcc), sample_count=1)
+    gce = exhaustive_generatec_cases()
+    rep.add("generate-c-exhaustive", eval_generatec(gce), sample_count=1)
+    gcr = [random_generatec_case(rng) for _ in range(400 if quick else 5000)]
+    rep.add("generate-c-random", eval_generatec(gcr))
+    bcs = build_cases(rng, 150 if quick else 3000)
+    rep.add("build-loader", eval_build(bcs))
+    rep.extra["standalone_distribution"] = {"file_roundtrip": len(fcases), "file_read": len(lcases),
+                                            "generate_c_exhaustive": len(gce), "generate_c_random": len(gcr),
+                                            "build_loader": len(bcs)}
+    lap("standalone done")
     icorpus = [{"world": w, "iflags": il, "name": n} for n, w, il in INIT_CORPUS]
     rep.add("init-corpus", eval_init(icorpus), sample_count=1)
     irnd = [random_init_case(rng) for _ in range(700 if quick else 6000)]
@@ -986,6 +1320,16 @@ def replay(rep, payload):
         if st.startswith("lib"):
             with vlib.Sandbox("c19lib") as sb:
                 rep.add(st, eval_lib([c], sb.root))
+        elif st.startswith("file-roundtrip"):
+            with vlib.Sandbox("c19flat") as sb:
+                rep.add(st, eval_flat([c], sb.root))
+        elif st.startswith("file-read"):
+            with vlib.Sandbox("c19flat") as sb:
+                rep.add(st, eval_flatload([c], sb.root))
+        elif st.startswith("generate-c"):
+            rep.add(st, eval_generatec([c]))
+        elif st.startswith("build"):
+            rep.add(st, eval_build([c]))
         elif st.startswith("generate"):
             rep.add(st, eval_generate([c]))
         else:
